@@ -50,6 +50,69 @@ pub fn drive_sequences(a: u16, automatic: bool) -> Vec<(String, Vec<flipdot_core
     v
 }
 
+fn bus_obs_equal(x: &flipdot_testing::VirtualSignBus<'_>, y: &flipdot_testing::VirtualSignBus<'_>) -> bool {
+    (0..2).all(|i| obs_equal(x.sign(i), y.sign(i)))
+}
+
+/// Continuations for `distinguish`: every addressed kind to both signs, unaddressed counts and chunks, and whole
+/// transfers, each followed by state queries.
+fn probe_suite(a0: u16, a1: u16) -> Vec<Vec<flipdot_core::Message<'static>>> {
+    use flipdot_core::{Address, ChunkCount, Data, Message, Offset, Operation};
+    let chunk = Message::SendData(Offset(0), Data::try_new(vec![0x22u8; 16]).unwrap());
+    let block = Message::SendData(Offset(0), Data::try_new(custom_block(12, 8, 0xEE)).unwrap());
+    let cnt = |n: u16| Message::DataChunksSent(ChunkCount(n));
+    let q = vec![Message::QueryState(Address(a0)), Message::QueryState(Address(a1))];
+    let mut v: Vec<Vec<Message<'static>>> = vec![];
+    let mut push = |mut p: Vec<Message<'static>>| {
+        p.extend(q.clone());
+        v.push(p);
+    };
+    push(vec![]);
+    for n in 0..4u16 {
+        push(vec![cnt(n)]);
+        push(vec![chunk.clone(), cnt(n)]);
+        push(vec![block.clone(), cnt(n)]);
+    }
+    for a in [a0, a1] {
+        let ad = Address(a);
+        push(vec![Message::Hello(ad)]);
+        push(vec![Message::PixelsComplete(ad)]);
+        push(vec![Message::Goodbye(ad)]);
+        for (o, _, _) in crate::refmodel::OPS.iter() {
+            push(vec![Message::RequestOperation(ad, *o)]);
+        }
+        push(vec![Message::RequestOperation(ad, Operation::ReceiveConfig), block.clone(), cnt(1)]);
+        push(vec![Message::RequestOperation(ad, Operation::ReceivePixels), chunk.clone(), cnt(1), Message::PixelsComplete(ad)]);
+        push(vec![Message::RequestOperation(ad, Operation::ReceivePixels), chunk.clone(), chunk.clone(), cnt(2), Message::PixelsComplete(ad)]);
+        push(vec![Message::RequestOperation(ad, Operation::StartReset), Message::RequestOperation(ad, Operation::FinishReset)]);
+    }
+    v
+}
+
+/// Runs every probe on clones of both buses; returns the first continuation after which replies or state/type/pages differ.
+fn distinguish(x: &flipdot_testing::VirtualSignBus<'static>, y: &flipdot_testing::VirtualSignBus<'static>, probes: &[Vec<flipdot_core::Message<'static>>]) -> Option<String> {
+    use flipdot_core::SignBus;
+    for p in probes {
+        let (mut bx, mut by) = (x.clone(), y.clone());
+        for (i, m) in p.iter().enumerate() {
+            let rx = crate::util::catch(|| bx.process_message(m.clone()).ok().flatten().map(|r| crate::refmodel::own(&r)));
+            let ry = crate::util::catch(|| by.process_message(m.clone()).ok().flatten().map(|r| crate::refmodel::own(&r)));
+            let same = match (&rx, &ry) {
+                (Ok(a), Ok(b)) => a == b && bus_obs_equal(&bx, &by),
+                (Err(_), Err(_)) => true,
+                _ => false,
+            };
+            if !same {
+                return Some(p[..=i].iter().map(crate::refmodel::msg_str).collect::<Vec<_>>().join(", "));
+            }
+            if rx.is_err() {
+                break;
+            }
+        }
+    }
+    None
+}
+
 /// "A message for an address nobody has gets no reply and changes nothing": for every pair of protocol states of a
 /// two-sign bus, every addressed message kind is delivered to EVERY one of the 65534 absent addresses.
 pub fn absent_address_sweep(rep: &mut Report) {
@@ -71,7 +134,8 @@ pub fn absent_address_sweep(rep: &mut Report) {
             for m in s0 {
                 let _ = bus.process_message(m.clone());
             }
-            if bus.sign(1) != &keep1 {
+            let unaddressed = s0.iter().any(|m| matches!(m, Message::SendData(..) | Message::DataChunksSent(..)));
+            if (receiving(keep1.state()) && unaddressed) || !obs_equal(bus.sign(1), &keep1) {
                 continue; // sign 0's transfer interfered legitimately (both receiving): skip this pair
             }
             states.push((format!("{} / {}", n0, n1), bus));
@@ -89,28 +153,54 @@ pub fn absent_address_sweep(rep: &mut Report) {
         Box::new(|a| Message::RequestOperation(a, Operation::StartReset)),
         Box::new(|a| Message::RequestOperation(a, Operation::FinishReset)),
     ];
+    // "Changes nothing" is judged on what the property names (state, type, pages of every sign) and on behaviour:
+    // a difference confined to private fields counts only if some continuation of the probe suite tells the two
+    // buses apart (replies or state/type/pages after any step).
+    let probes = probe_suite(a0, a1);
     let n = states.len() as u64 * kinds.len() as u64;
     let accs = par_range(n, 1, Acc::default, |acc, i| {
         let (ref name, ref bus) = states[(i / kinds.len() as u64) as usize];
         let k = (i % kinds.len() as u64) as usize;
         let mut work = bus.clone();
+        let mut private_fields_differ = false;
+        let mut last_addr = 0u16;
         for addr in 0..=65535u16 {
             if addr == a0 || addr == a1 {
                 continue;
             }
             acc.evals += 1;
+            last_addr = addr;
             let m = kinds[k](Address(addr));
             let r = crate::util::catch(|| work.process_message(m.clone()).map(|o| o.is_some()).unwrap_or(true));
-            let bad = match r {
-                Err(_) => Some("panicked"),
-                Ok(true) => Some("replied"),
-                Ok(false) if &work != bus => Some("changed-the-bus"),
+            let bad: Option<String> = match r {
+                Err(_) => Some("panicked".into()),
+                Ok(true) => Some("replied".into()),
+                Ok(false) if private_fields_differ || &work != bus => {
+                    if !bus_obs_equal(&work, bus) {
+                        Some("changed-the-bus".into())
+                    } else if !private_fields_differ {
+                        private_fields_differ = true;
+                        distinguish(&work, bus, &probes).map(|p| format!("changed-later-behaviour[{}]", p))
+                    } else {
+                        None
+                    }
+                }
                 _ => None,
             };
             if let Some(what) = bad {
-                acc.violation("C14", Violation::new("absent-address-silent", format!("{}:{}", what, crate::refmodel::kind_name(&m)), format!("{} for the absent address {:04X} on a bus with signs {:04X},{:04X} in states [{}]: {}", crate::refmodel::msg_str(&m), addr, a0, a1, name, what), json!({"kind": "absent", "state_index": i / kinds.len() as u64, "message_kind": k, "addr": addr}), (1u64 << 50) | (i << 16) | addr as u64));
+                let class = what.split('[').next().unwrap_or("").to_string();
+                acc.violation("C14", Violation::new("absent-address-silent", format!("{}:{}", class, crate::refmodel::kind_name(&m)), format!("{} for the absent address {:04X} on a bus with signs {:04X},{:04X} in states [{}]: {}", crate::refmodel::msg_str(&m), addr, a0, a1, name, what), json!({"kind": "absent", "state_index": i / kinds.len() as u64, "message_kind": k, "addr": addr}), (1u64 << 50) | (i << 16) | addr as u64));
                 work = bus.clone();
+                private_fields_differ = false;
             }
+        }
+        if private_fields_differ {
+            // private fields drifted without an observable difference: judge the accumulated drift once more
+            if let Some(p) = distinguish(&work, bus, &probes) {
+                let m = kinds[k](Address(last_addr));
+                acc.violation("C14", Violation::new("absent-address-silent", format!("changed-later-behaviour-after-sweep:{}", crate::refmodel::kind_name(&m)), format!("{} delivered to every absent address on a bus with signs {:04X},{:04X} in states [{}]: afterwards the bus behaves differently under the continuation [{}]", crate::refmodel::kind_name(&m), a0, a1, name, p), json!({"kind": "absent", "state_index": i / kinds.len() as u64, "message_kind": k, "addr": last_addr, "whole_sweep": true}), (1u64 << 51) | (i << 16)));
+            }
+            acc.outcomes.add("absent-sweep-job-private-fields-drifted-behaviour-equal");
         }
         acc.outcomes.add("absent-sweep-job");
     });
@@ -153,15 +243,7 @@ pub fn run(ctx: &Ctx) -> Report {
     let mut xs = vec![];
     if rep.violations.is_empty() {
         for name in ["bus-1-a", "bus-2-q"] {
-            let sysname = BusSys { cfg: bus_config(name).unwrap(), oracle: BusOracle::Isolation }.name();
-            let sr = crate::xcheck::stateright_unique_states(BusSys { cfg: bus_config(name).unwrap(), oracle: BusOracle::Isolation });
-            let mine = runs.iter().find(|r| r["run"] == json!(sysname)).and_then(|r| r["states"].as_u64());
-            if let Some(mine) = mine {
-                xs.push(json!({"run": sysname, "stateright_unique_states": sr, "own_explorer_states": mine, "equal": sr == mine}));
-                if sr != mine {
-                    rep.machinery_errors.push(format!("E5 cross-check: stateright found {} unique states for {}, the own explorer {}", sr, sysname, mine));
-                }
-            }
+            crate::xcheck::cross_check(&mut rep, &mut xs, &runs, BusSys { cfg: bus_config(name).unwrap(), oracle: BusOracle::Isolation });
         }
     }
     rep.set("stateright_cross_check", Value::Array(xs));
